@@ -14,5 +14,6 @@ def plan(tier, seed):
     for n in re.findall(r"fn (k_\w+)\s*\(", txt):
         if only and not re.search(only, n):
             continue
-        p.harnesses.append(dict(name=n, family="probe", obligation="probe", sym="", timeout=to, mem_gb=float(os.environ.get("VERIF_PROBE_MEM", "12"))))
+        p.harnesses.append(dict(name=n, family="probe", obligation="probe", sym="", timeout=to, mem_gb=float(os.environ.get("VERIF_PROBE_MEM", "12")),
+            unwind_rules=[(a.split("=")[0], int(a.split("=")[1])) for a in os.environ.get("VERIF_PROBE_UNW", "").split(",") if a]))
     return p
